@@ -2,6 +2,7 @@
 mod ast;
 mod compile;
 mod exprtext;
+mod gen_data;
 mod gen_lp;
 mod gen_model;
 mod points;
@@ -23,6 +24,7 @@ fn drivers() -> Vec<Box<dyn Driver>> {
         Box::new(props::c03::C03),
         Box::new(props::c04::C04),
         Box::new(props::c04::C05),
+        Box::new(props::c06::C06),
         Box::new(props::c07::C07),
         Box::new(props::c07::C08),
         Box::new(props::c09::C09),
@@ -117,6 +119,24 @@ fn main() {
                 Ok(LpAnswer::Optimal { x, value }) => println!("optimal {} at {}", show(&value), show_vec(&x)),
                 Ok(o) => println!("{}", o.kind()),
                 Err(e) => println!("oracle failed: {e}"),
+            }
+        }
+        "try-file" => {
+            let text = std::fs::read_to_string(&args[2]).unwrap();
+            let parser = rooc::RoocParser::new(text.clone());
+            println!("type_check: {:?}", parser.type_check(&vec![], &indexmap::IndexMap::new()));
+            match parser.parse_and_transform(vec![], &indexmap::IndexMap::new()) {
+                Ok(m) => {
+                    println!("MODEL:\n{m}");
+                    match rooc::Linearizer::linearize(m) {
+                        Ok(l) => println!("LINEAR:\n{l}"),
+                        Err(e) => println!("LINEARIZE ERR: {e}"),
+                    }
+                }
+                Err(e) => println!("TRANSFORM ERR:\n{e}"),
+            }
+            if let Ok(f) = parser.format() {
+                println!("FORMATTED:\n{f}");
             }
         }
         "try-expr" => {
